@@ -658,6 +658,138 @@ def source_equations(ctx, which):
     return ok
 
 
+# ------------------------------------------------------------------ entry-point / spelling / value-kind / environment / history matrix
+class Obj:
+    """an item with real attributes (make_attrgetter falls back from obj[k] to getattr)"""
+    def __init__(self, k, i):
+        self.k, self.i = k, i
+
+    def __repr__(self):
+        return f"Obj({self.k!r}, {self.i})"
+
+    def __eq__(self, o):
+        return isinstance(o, Obj) and (self.k, self.i) == (o.k, o.i)
+
+    def __hash__(self):
+        return hash((self.k, self.i))
+
+
+class Raising:
+    """an item whose attribute protocol raises"""
+    i = 0
+
+    @property
+    def k(self):
+        raise RuntimeError("boom")
+
+    def __repr__(self):
+        return "Raising()"
+
+
+class IterOnly:
+    def __init__(self, xs):
+        self.xs = xs
+
+    def __iter__(self):
+        return iter(self.xs)
+
+
+class GetItemOnly:
+    def __init__(self, xs):
+        self.xs = xs
+
+    def __getitem__(self, i):
+        return self.xs[i]
+
+    def __len__(self):
+        return len(self.xs)
+
+
+class StrSub(str):
+    pass
+
+
+def matrix(ctx, jinja2):
+    from .filt_matrix import Matrix
+    mx = Matrix(ctx, jinja2)
+    keysets = [["b", "A", "a", "B", "b"], [], ["x"]]
+    if ctx.tier == "thorough":
+        keysets += [["a", "a", "A"], ["c", "b", "a", "C"]]
+    containers = [("list", list), ("tuple", tuple), ("iterator", iter), ("generator", lambda xs: (x for x in xs)),
+                  ("iter_only", IterOnly), ("getitem_only", GetItemOnly)]
+    try:
+        for ks in keysets:
+            item_kinds = {
+                "str": list(ks), "Markup": [Markup(k) for k in ks], "StrSub": [StrSub(k) for k in ks],
+                "dict": [{"k": k, "i": i} for i, k in enumerate(ks)], "obj": [Obj(k, i) for i, k in enumerate(ks)],
+                "pair": [(k, i) for i, k in enumerate(ks)],
+                "num": [[1, True, 1.0, 0, False, 2][i % 6] for i, _ in enumerate(ks)],
+            }
+            for ik, items in item_kinds.items():
+                attr = {"dict": "k", "obj": "k", "pair": 0}.get(ik)
+                for cname, C in containers:
+                    if cname in ("iter_only", "getitem_only", "tuple") and ik not in ("str", "dict"):
+                        continue
+                    fv = (lambda items=items, C=C: C(list(items)))
+                    v = fv()
+                    A = lambda f, a=(), n=(), **kw: mx.apply("C22", f, v, a, n, fresh_value=fv, **kw)   # noqa: E731
+                    for a in ((2,), (2, "F"), (3, None)):
+                        A("batch", a, ("linecount", "fill_with"))
+                        A("slice", a, ("slices", "fill_with"))
+                    for f in ("first", "list", "reverse", "last", "length", "count"):
+                        A(f)
+                    if ik != "num":
+                        for a in (((False,) if attr is None else (False, attr)), ((True,) if attr is None else (True, attr))):
+                            A("unique", a, ("case_sensitive", "attribute"))
+                            A("min", a, ("case_sensitive", "attribute"))
+                            A("max", a, ("case_sensitive", "attribute"))
+                        for a in ((False, False), (True, True), (False, True)):
+                            A("sort", a if attr is None else a + (attr,), ("reverse", "case_sensitive", "attribute"))
+                        if ik in ("str", "Markup", "StrSub"):
+                            for a in (("",), (", ",), (Markup("<br>"),)):
+                                A("join", a, ("d", "attribute"))
+                            A("map", ("upper",), ())
+                            A("map", ("replace", "a", "4"), ())
+                            A("select", ("equalto", "a"), ())
+                            A("reject", ("in", ["a", "b"]), ())
+                        if attr is not None:
+                            A("groupby", (attr,), ("attribute",))
+                            A("groupby", (attr, "zz", True), ("attribute", "default", "case_sensitive"))
+                            A("join", ("|", attr), ("d", "attribute"))
+                            A("map", {"attribute": attr}, ())
+                            A("map", {"attribute": attr, "default": "dflt"}, ())
+                            A("selectattr", (attr, "equalto", "a"), ())
+                            A("rejectattr", (attr, "in", ["a", "B"]), ())
+                            A("selectattr", (attr,), ())
+                            A("sum", ("i" if ik != "pair" else 1, 10), ("attribute", "start"))
+                    else:
+                        A("sum", (), ())
+                        A("sum", (None, 5), ("attribute", "start"))
+                        A("sort", (True,), ("reverse",))
+                        A("unique", (), ())
+                        A("min", (), ())
+                        A("max", (), ())
+                        A("select", (), ())
+                        A("select", ("odd",), ())
+                        A("reject", ("greaterthan", 0), ())
+                        A("join", ("-",), ("d",))
+        # items whose attribute protocol raises: every way must fail the same way
+        bad = [Obj("a", 0), Raising()]
+        for f, a, n in (("sort", (False, False, "k"), ("reverse", "case_sensitive", "attribute")), ("unique", (False, "k"), ("case_sensitive", "attribute")),
+                        ("groupby", ("k",), ("attribute",)), ("map", {"attribute": "k"}, ()), ("selectattr", ("k",), ()), ("max", (False, "k"), ("case_sensitive", "attribute"))):
+            mx.apply("C22", f, bad, a, n)
+        # dictsort: dict and other mappings
+        import collections
+        import types
+        for d in ({"b": 2, "A": 3, "a": 1}, {}, {Markup("b"): 1, "A": 2}, {2: "x", 1: "Y", 3: "x"}):
+            for make in (dict, collections.OrderedDict, types.MappingProxyType):
+                for a in ((), (False, "key", False), (True, "value", True), (False, "value"), (False, "other")):
+                    mx.apply("C22", "dictsort", make(dict(d)), a, ("case_sensitive", "by", "reverse"))
+        mx.history_pass(every_fresh=7)
+    finally:
+        mx.close()
+
+
 def run(ctx):
     jinja2 = lib.use_repo_jinja()
     ctx.extra["rule"] = RULE
@@ -685,6 +817,7 @@ def run(ctx):
             judge(ctx, rn, case, value, out[2 * i], out[2 * i + 1], aug, with_template=(i % step == 0))
     finally:
         rn.ar.close()
+    matrix(ctx, jinja2)
 
 
 def replay(ctx, data):
